@@ -102,7 +102,11 @@ let check_tokens (cfg : econfig) (ops : eop list) (tr : tok list) : unit =
            if on_tok t "C15" && r.r_state = RSDataDeleted && p.r_state <> RSReqDataDeleted && p.r_state <> RSDataDeleted then
              bad "C15" "run %d: scrubbed without a request (state %d)" (ni r.r_run) (zi (rs_code p.r_state));
            if on_tok t "C15" && r.r_state = RSReqDataDeleted && not (List.mem p.r_state [RSCompleted; RSCancelled; RSDataDeleted]) then
-             bad "C15" "run %d: DeleteData accepted in state %d" (ni r.r_run) (zi (rs_code p.r_state)));
+             bad "C15" "run %d: DeleteData accepted in state %d" (ni r.r_run) (zi (rs_code p.r_state));
+           (* the extracted mon_C15_obj (theorem C15_scrub_object_monitor): whatever becomes DataDeleted holds the scrub of the
+              object that was stored — the custom delete function's result when one is configured, else the fixed marker *)
+           if on "C15" && not (mon_C15_obj cfg t) then
+             bad "C15" "run %d: the DataDeleted write does not hold the result of the configured delete function applied to the stored object" (ni r.r_run));
         if on_tok t "C16" && r.r_desc <> r.r_status then bad "C16" "run %d: status description describes %d but status is %d" (ni r.r_run) (zi r.r_desc) (zi r.r_status);
         if on_tok t "C03" && r.r_state = RSCompleted && not (is_terminal g r.r_status) then bad "C03" "run %d Completed at non-terminal status %d" (ni r.r_run) (zi r.r_status);
         if on_tok t "C03" && (r.r_state = RSRunning) && is_terminal g r.r_status && (match prev with Some p -> p.r_status <> r.r_status | None -> false) then
